@@ -153,7 +153,10 @@ class World:
                 if 1 <= ev["i"] <= len(pend):
                     p = pend[ev["i"] - 1]
                     if ev["fail"]:
-                        p.fail(ConnectionResetError("peer went away"))
+                        exc = ConnectionResetError("peer went away")
+                        if k["kind"] != "tty":
+                            k["writer"].connection_lost(exc)       # drain() fails because the transport was force-closed
+                        p.fail(exc)
                     else:
                         p.complete()
             elif op == "tick":
